@@ -22,7 +22,7 @@ LEVEL = "exploration"
 RULE = ("values: ints, strs (0..5000 chars), bytes, nested lists/dicts/tuples, dataclass-like NamedTuple, Blob objects "
         "of a FileCache-registered type; configurations: value_store on/off, value_store_min_size in {0, 40, 100, 1000, "
         "default}, max_value_size in {60, 500, default}; per value: record, read, record again, read, delete offloaded "
-        "bytes, read.  Non-trivial = distinct (value, configuration) whose bytes were offloaded or rejected.")
+        "bytes, read, record again, read.  Non-trivial = distinct (value, configuration) whose bytes were offloaded or rejected.")
 ASSUMPTIONS = ["SQLite file backend, local value store directory"]
 
 
@@ -175,6 +175,17 @@ def run_case(ctx, rnd, where):
                     ctx.violation("missing-bytes-read-as-value", "offloaded bytes deleted but get_value returned ok with %r" % (repr(v4)[:60],), wit)
                 elif v4 is not None:
                     ctx.violation("missing-bytes-read-as-value", "absent value returned as %r" % (repr(v4)[:60],), wit)
+                # recording the value again makes it a recorded value again: it must read back, wherever the bytes go
+                try:
+                    h5 = backend.record_value(v)
+                    v5, ok5 = read()
+                except Exception as e:
+                    ctx.violation("rerecord-after-loss-raised", "%r" % (e,), wit)
+                    continue
+                ctx.count("rerecordings_after_lost_bytes")
+                if h5 != h or not ok5 or not same(v5):
+                    ctx.violation("rerecorded-value-does-not-read-back", "after the offloaded bytes were lost, record_value returned "
+                                  "%s but the value reads back as ok=%s" % ("the same hash" if h5 == h else "another hash", ok5), wit)
         backend.session.close()
         backend.engine.dispose()
     finally:
@@ -196,6 +207,7 @@ def main(ctx):
     ctx.require("values_offloaded_to_value_store", 50)
     ctx.require("rejections", 20)
     ctx.require("reads_with_missing_bytes", 30)
+    ctx.require("rerecordings_after_lost_bytes", 30)
     ctx.require("filecache_values", 10)
 
 
